@@ -33,7 +33,7 @@ func (stressArea) Gen(r *hx.Rng, n int, tier string, emit func(string)) {
 		attempts = 300
 	}
 	for i := 0; i < n; i++ {
-		period := hx.Pick(r, []int{1000, 1000, 1000, 2000, 5000, 20000, 100000, 1000000})
+		period := hx.Pick(r, []int{1000, 1000, 1000, 2000, 5000, 20000, 100000, 1000000, 10000000, 1000000000})
 		emit(fmt.Sprintf("stress %d %d %d %d %d %s %d", r.U64()%1000000007, period, hx.Pick(r, []int{1, 2, 4, 16}),
 			hx.Pick(r, []int{1, 2, 4, 8}), hx.Pick(r, []int{5, 20, 50}), hx.Pick(r, []string{"root", "late", "late", "child", "both"}),
 			attempts))
@@ -139,9 +139,16 @@ func attempt(r *hx.Rng, period time.Duration, users, uses int, target string, ph
 	}
 	root := rate.New(rootCap, period)
 	lims := []stressLim{{l: root, parent: -1, cap: rootCap}}
-	for i, k := 0, r.Range(1, 5); i < k; i++ {
+	nkids, maxDepth := r.Range(1, 5), 3
+	if r.Chance(1, 6) { // depth up to 6, 17+ limiters
+		nkids, maxDepth = r.Range(17, 40), 6
+	}
+	for i, k := 0, nkids; i < k; i++ {
 		p := r.Intn(len(lims))
-		if lims[p].depth >= 3 {
+		if maxDepth == 6 && r.Chance(1, 2) {
+			p = len(lims) - 1 // grow a chain
+		}
+		if lims[p].depth >= maxDepth {
 			p = 0
 		}
 		c := hx.Pick(r, []int{1, lims[p].cap, lims[p].cap + 3, lims[p].cap / 2, r.Range(1, 25)})
@@ -191,6 +198,60 @@ func attempt(r *hx.Rng, period time.Duration, users, uses int, target string, ph
 				maxCap[li] = nc
 			}
 		}
+	}
+
+	// the accessors are called concurrently with everything else; they are judged against what the harness itself
+	// knows: Cap(false) is one of the values this limiter was ever given, Cap(true) one of the values given to it or an
+	// ancestor, 0 <= LastUsed <= the largest cap the limiter ever had, Closed never goes back to false
+	capSet := make([]map[int]bool, len(lims))
+	for i := range lims {
+		capSet[i] = map[int]bool{lims[i].cap: true}
+	}
+	for _, ch := range changes {
+		capSet[ch.lim][ch.cap] = true
+	}
+	var readerFault atomic.Value
+	var stopReaders atomic.Bool
+	var rwg sync.WaitGroup
+	for q, nr := 0, r.Intn(3); q < nr; q++ {
+		rr := r.Fork()
+		rwg.Add(1)
+		go func() {
+			defer rwg.Done()
+			wasClosed := make([]bool, len(lims))
+			for !stopReaders.Load() {
+				i := rr.Intn(len(lims))
+				l := lims[i].l
+				switch rr.Intn(4) {
+				case 0:
+					if v := l.Cap(false); !capSet[i][v] {
+						readerFault.Store(fmt.Sprintf("Cap(false) of limiter %d returned %d, a value it was never given", i, v))
+					}
+				case 1:
+					v := l.Cap(true)
+					ok := false
+					for j := i; j >= 0; j = lims[j].parent {
+						ok = ok || capSet[j][v]
+					}
+					if !ok {
+						readerFault.Store(fmt.Sprintf("Cap(true) of limiter %d returned %d, a value neither it nor an ancestor was ever given", i, v))
+					}
+				case 2:
+					if v := l.LastUsed(); v < 0 || v > maxCap[i] {
+						readerFault.Store(fmt.Sprintf("LastUsed of limiter %d returned %d, its cap never exceeded %d", i, v, maxCap[i]))
+					}
+				default:
+					c := l.Closed()
+					if wasClosed[i] && !c {
+						readerFault.Store(fmt.Sprintf("Closed() of limiter %d went back to false", i))
+					}
+					wasClosed[i] = c
+				}
+				if rr.Chance(1, 3) {
+					runtime.Gosched()
+				}
+			}
+		}()
 	}
 
 	var mu sync.Mutex
@@ -269,6 +330,12 @@ func attempt(r *hx.Rng, period time.Duration, users, uses int, target string, ph
 	phase.Store("Use / SetCap calls (Close has returned)")
 	wg.Wait()
 
+	phase.Store("accessors running concurrently (Cap, LastUsed, Closed)")
+	stopReaders.Store(true)
+	rwg.Wait()
+	if f := readerFault.Load(); f != nil {
+		return f.(string)
+	}
 	phase.Store("Closed() after Close")
 	top := tgt
 	if target == "both" {
@@ -282,16 +349,16 @@ func attempt(r *hx.Rng, period time.Duration, users, uses int, target string, ph
 	phase.Store("Use after Close")
 	select {
 	case err := <-lims[tgt].l.Use(1):
-		if classify(err) != "err-closed" {
-			return "Use(1) on a closed limiter answered " + classify(err)
+		if err == nil {
+			return "Use(1) on a closed limiter answered nil"
 		}
 	default:
 		return "Use(1) on a closed limiter was queued"
 	}
 	select {
 	case err := <-lims[tgt].l.Use(0):
-		if classify(err) != "err-closed" {
-			return "Use(0) on a closed limiter answered " + classify(err)
+		if err == nil {
+			return "Use(0) on a closed limiter answered nil"
 		}
 	default:
 		return "Use(0) on a closed limiter was queued"
@@ -313,15 +380,12 @@ func attempt(r *hx.Rng, period time.Duration, users, uses int, target string, ph
 	for _, q := range all {
 		got := classify(<-q.ch)
 		*answers++
+		// only nil / error is constrained by the property, not which error or its text
 		switch {
-		case q.amt < 0 && got != "err-neg":
-			return fmt.Sprintf("Use(%d) answered %s", q.amt, got)
-		case q.amt == 0 && got != "nil" && got != "err-closed":
-			return fmt.Sprintf("Use(0) answered %s", got)
-		case q.amt > maxCap[q.lim] && got != "err-cap" && got != "err-closed":
-			return fmt.Sprintf("Use(%d) on a limiter whose capacity never exceeded %d answered %s", q.amt, maxCap[q.lim], got)
-		case q.amt > 0 && got == "err-neg", got == "err-other":
-			return fmt.Sprintf("Use(%d) answered %s", q.amt, got)
+		case q.amt < 0 && got == "nil":
+			return fmt.Sprintf("Use(%d) answered nil", q.amt)
+		case q.amt > maxCap[q.lim] && got == "nil":
+			return fmt.Sprintf("Use(%d) on a limiter whose capacity never exceeded %d answered nil", q.amt, maxCap[q.lim])
 		}
 	}
 	phase.Store("second answers")
